@@ -1,5 +1,6 @@
 import SctpVerif.Proofs.NetSys.LiveDrain
 import SctpVerif.Proofs.NetSys.LiveTaken
+import SctpVerif.Proofs.NetSys.LiveRoundOk
 import SctpVerif.Props.C01sel
 /-!
 # C02 on the composed model — the receiver's own SACKs make the sender-side progress theorems applicable
@@ -205,6 +206,46 @@ theorem C02_netsys_drains_partial (P : Params) (ops : List Op) (n : Nat) (hc : S
   obtain ⟨e1, e2, e3⟩ := drained_buffered d1 d2
   exact ⟨hfin, e1, e2, e3, fun hok hwb => drained_streams P hc _ hok hwb e1 e2⟩
 
+/-- **One healed round, readable premises: `RoundOk` gives `Taken`.** In every reachable NetSys state over reliable ordered
+streams (`Reliable ops`) with the sender established, `InfFit` and something outstanding: if the receiver is established
+(`state = 3`), has `Room` (credit, or something held above its cumulative point), the two endpoints are `InSync` (the sender's
+cumulative ack point is not ahead of the receiver's cumulative point, and when they coincide the lowest outstanding chunk
+is not gap-acked) and the receiver does not answer the round's first delivery with an ABORT (`HeadOk`) — `RoundOk P s` —
+then in this healed round the receiver's cumulative point is ahead of the sender's when the SACK is built: `Taken P s`.
+(Sender half `C02_netsys_lowest_on_wire`, receiver half `C02_netsys_receiver_takes`, glued: the round's first `deliver`
+carries exactly that chunk into exactly that receiver state.) -/
+theorem C02_netsys_roundok_taken (P : Params) (ops : List Op) (hc : SenderProofs.CfgOk P.cfg) (hf : SenderProofs.CfgFit P.cfg)
+    (hN : chunksWritten P ops < 2^31) (hrel : Reliable ops = true)
+    (hest : (run P (init P) ops).snd.established = true)
+    (hsm : (run P (init P) ops).snd.inflight.length + (run P (init P) ops).snd.pending.length < 2^31)
+    (hfit : SenderProofs.InfFit (run P (init P) ops).snd)
+    (hok : RoundOk P (run P (init P) ops) = true) (hpos : 0 < outstanding (run P (init P) ops)) :
+    Taken P (run P (init P) ops) = true :=
+  taken_of_roundOk P ops hc hN (snd_live P ops hc hf hest hsm) hfit (noab_of_reliable P ops hc hrel) hok hpos
+
+/-- **The healed rounds drain the sender — readable premises.** `C02_netsys_drains_partial` with the opaque `TakenN`
+replaced by `RoundOkN P n s`: at the start of each of the `n` rounds that has something outstanding, the receiver is
+established, has `Room`, the endpoints are `InSync`, and the first delivery is not answered with an ABORT. From every
+reachable NetSys state over reliable ordered streams (`Reliable ops`) with the sender established and `InfFit`
+(`SenderProofs.run_inffit` under `TsnOk`): `n ≥ pending + in-flight chunks` healed rounds end with both sender queues empty,
+`Association.BufferedAmount()` = 0, and every stream's `BufferedAmount()` = 0 under C15's D9 premise.
+Still `_partial`-grade in three premises, each with the lemma that would remove it (file header): `InSync` (from `Honest`),
+`Room` (from `FitsBuffer` + the reads), `HeadOk` (from `maxReassemblyQueueEntries = 0`). -/
+theorem C02_netsys_drains_roundok (P : Params) (ops : List Op) (n : Nat) (hc : SenderProofs.CfgOk P.cfg)
+    (hf : SenderProofs.CfgFit P.cfg) (hN : chunksWritten P ops < 2^31) (hrel : Reliable ops = true)
+    (hest : (run P (init P) ops).snd.established = true)
+    (hsm : (run P (init P) ops).snd.inflight.length + (run P (init P) ops).snd.pending.length < 2^31)
+    (hfit : SenderProofs.InfFit (run P (init P) ops).snd)
+    (hok : RoundOkN P n (run P (init P) ops) = true) (hn : outstanding (run P (init P) ops) ≤ n) :
+    let fin := run P (init P) (ops ++ healedRounds P n (run P (init P) ops))
+    fin = healedN P n (run P (init P) ops) ∧
+    fin.snd.inflight = [] ∧ fin.snd.pending = [] ∧ fin.snd.penBytes + fin.snd.infBytes = 0 ∧
+    (SenderProofs.RunOk (Sender.init P.cfg P.tsn P.peerRwnd)
+        (sndOps P (init P).snd (ops ++ healedRounds P n (run P (init P) ops))) →
+      fin.snd.wrapBuf = false → ∀ si, SenderProofs.bufOf fin.snd si = 0) :=
+  C02_netsys_drains_partial P ops n hc hf hN hest hsm
+    (takenN_of_roundOkN P hc n ops hN (snd_live P ops hc hf hest hsm) hfit hrel hok) hn
+
 /-- **Safety along the healed rounds**: C01 for the run extended by any number of healed rounds — over reliable ordered
 streams with FIFO selection (the healed rounds select FIFO and open no stream), what the application has read on a stream is
 a prefix of what was written on it. (`C01_netsys_prefix_fifo` for the extended operation list; its hypotheses are
@@ -288,6 +329,28 @@ example :
     readsOn PD 1 (init PD) all = writesOn PD 1 (init PD) all ∧ readsOn PD 2 (init PD) all = writesOn PD 2 (init PD) all ∧
     readsOn PD 1 (init PD) all = [(51, [1, 2, 3, 4, 5]), (52, [9, 8, 7]), (53, [4, 4, 4, 4, 4, 4])] ∧
     SenderProofs.bufOf (run PD (init PD) all).snd 1 = 0 := by decide
+
+-- `InfFit` of the example state (every un-acked in-flight chunk fits a packet), by evaluation
+private theorem infFit_ex : SenderProofs.InfFit (run PD (init PD) ops0).snd := by
+  intro c hc ha
+  have : ∀ c ∈ (run PD (init PD) ops0).snd.inflight,
+      decide (Sender.hdr + c.sizeInPacket (run PD (init PD) ops0).snd.cfg.useInterleaving ≤ ((run PD (init PD) ops0).snd.cfg.mtu.toNat : Int)) = true := by
+    decide
+  exact of_decide_eq_true (this c hc)
+
+-- non-vacuity of `C02_netsys_roundok_taken` and `C02_netsys_drains_roundok` (n = 9 = pending + in flight)
+set_option maxRecDepth 1000000 in
+example : Taken PD (run PD (init PD) ops0) = true :=
+  C02_netsys_roundok_taken PD ops0 (by unfold SenderProofs.CfgOk; decide) (by unfold SenderProofs.CfgFit; decide)
+    (by decide) (by decide) (by decide) (by decide) infFit_ex (by decide) (by decide)
+
+set_option maxRecDepth 1000000 in
+example :
+    let fin := run PD (init PD) (ops0 ++ healedRounds PD 9 (run PD (init PD) ops0))
+    fin.snd.inflight = [] ∧ fin.snd.pending = [] ∧ fin.snd.penBytes + fin.snd.infBytes = 0 :=
+  let h := C02_netsys_drains_roundok PD ops0 9 (by unfold SenderProofs.CfgOk; decide) (by unfold SenderProofs.CfgFit; decide)
+    (by decide) (by decide) (by decide) (by decide) infFit_ex (by decide) (by decide)
+  ⟨h.2.1, h.2.2.1, h.2.2.2.1⟩
 
 -- non-vacuity of `C02_netsys_delivered_prefix`
 set_option maxRecDepth 1000000 in
